@@ -6,6 +6,11 @@ DeviceControl / PayloadStream operation can be made to fail) and the Gallina mod
 Io, Timeout, Disconnected, Busy, NotOpened, InvalidData, ...); per-call result class (which carries the
 fault class), failed operation, the device log (every operation attempted, in order), effect trace,
 value read and the state after every call are compared.
+The descriptions served by the fakes also define a selector-addressed register bank (one cache block per slot):
+sessions read slots through the camera's params context before and after close / reopen while the device's own
+memory changes behind the cache (a read after a clean close must be a device read returning the device's value),
+and one description declares TLParamsLocked with <pValue> + <pValueCopy> (the mirror write is a failure point of
+its own).
 The predicate below is the property itself, evaluated on the implementation's output only.
 """
 import json
@@ -17,16 +22,29 @@ from vplib import Check, Case, Rng, zlist
 OPEN, STOP, CLOSE, PARAMS = 0, 3, 4, 5
 LOAD, START = 20, 13           # load_context with the conforming description, start_streaming(3)
 ALPHABET = [OPEN, LOAD, START, STOP, CLOSE, PARAMS]
+LOADC = 48                     # load_context, conforming description with TLParamsLocked = <pValue> + <pValueCopy>
+BANK = 60                      # BANK + k: select slot k of the register bank and read it through params_ctxt
+NSLOT = 4
+
+
+def poke(k, v):
+    """the environment: the device's own memory of bank slot k becomes v (0..255), behind the host's cache"""
+    return 1000 + 256 * k + v
+
 
 # effect codes of rust/h_camera
 E_CTRL_OPEN, E_STRM_OPEN, E_FETCH, E_ENABLE, E_TL1, E_TL0, E_ASTART, E_ASTOP = 1, 2, 3, 4, 5, 6, 7, 8
 E_LSTART, E_LSTOP, E_DISABLE, E_CTRL_CLOSE, E_STRM_CLOSE, E_READ = 9, 10, 11, 12, 13, 15
 CTRL_OPS = {E_CTRL_OPEN, E_FETCH, E_ENABLE, E_DISABLE, E_CTRL_CLOSE}
 STRM_OPS = {E_STRM_OPEN, E_LSTART, E_LSTOP, E_STRM_CLOSE}
-REG_OPS = {E_TL1, E_TL0, E_ASTART, E_ASTOP, E_READ}
+E_COPY1, E_COPY0, E_BANK = 16, 17, 30     # write of 1 / 0 to the <pValueCopy> mirror; E_BANK + k: device read of bank slot k
+BANK_READS = set(range(E_BANK, E_BANK + NSLOT))
+REG_OPS = {E_TL1, E_TL0, E_ASTART, E_ASTOP, E_READ, E_COPY1, E_COPY0} | BANK_READS
+FOCUS_OPS = {E_COPY1, E_COPY0} | BANK_READS   # failure points that get every fault class in the focus families
 
 F_LOOP, F_CTXT, F_C_TL, F_C_START, F_C_STOP, F_COPEN, F_SOPEN, F_ENABLED, F_LOCKED, F_ACQ = \
     1, 2, 4, 8, 16, 32, 64, 128, 256, 512
+F_MIRROR, F_C_COPY, F_C_BANK = 1024, 2048, 4096 * (2 ** NSLOT - 1)   # mirror register != 0; mirror / bank slots cached
 
 
 NCLASS = 8      # fault classes of rust/h_camera (0 Io 1 Timeout 2 Disconnected 3 Busy 4 NotOpened 5 InvalidData ...)
@@ -87,7 +105,8 @@ def parse(out, ncalls):
     return res if pos == len(out) else None
 
 
-ALL_BITS = F_LOOP | F_C_TL | F_C_START | F_C_STOP | F_COPEN | F_SOPEN | F_ENABLED | F_LOCKED | F_ACQ
+ALL_BITS = (F_LOOP | F_C_TL | F_C_START | F_C_STOP | F_COPEN | F_SOPEN | F_ENABLED | F_LOCKED | F_ACQ | F_MIRROR
+            | F_C_COPY | F_C_BANK)
 
 
 def predicate(c, out):
@@ -113,10 +132,15 @@ def judge(calls, plan, rs, bits, faulty_call=None):
     """bits: the state bits the harness reports (the end-to-end harness sees the device memory and
     the streaming flag only; there nops is None: no failure is planned)."""
     copen = sopen = enabled = locked = acq = alive = False
+    mirror = False               # the <pValueCopy> mirror register of TLParamsLocked, replayed from the effects
+    hascopy = False              # the description loaded last declares the mirror
+    loaded = set()               # the descriptions loaded so far
     loops = 0
     any_failure = False          # a planned failure that was reached
     good = True                  # all calls so far inside close_clean's hypotheses
     ctxt = False
+    mem = [0] * NSLOT            # the device's own bank memory (changed by the environment steps of the session)
+    fresh = {}                   # slot -> the value a device read of it returned since the last clean close
     for i, (call, r) in enumerate(zip(calls, rs)):
         flag_before = alive       # equality with the flag was checked after the previous call
         where = "call %d (%d)" % (i, call)
@@ -125,6 +149,8 @@ def judge(calls, plan, rs, bits, faulty_call=None):
             good = False
         if 20 <= call <= 47 and call not in (20, 47):
             good = False
+        if call >= 1000:                     # the environment changes the device's bank memory
+            mem[(call - 1000) // 256] = (call - 1000) % 256
         # --- starting while streaming / without a description
         if is_start and flag_before:
             if r["res"] != 12 or r["effs"] or r["nops"] not in (0, None):
@@ -134,11 +160,19 @@ def judge(calls, plan, rs, bits, faulty_call=None):
                 return where + ": start without a loaded description must fail with GenApiContextMissing"
             if r["effs"] or r["nops"] not in (0, None):
                 return where + ": start without a loaded description must not touch the device"
+        # --- when a step fails its error is returned (checked first: what a call that swallowed a failure did
+        #     afterwards is reported by the rules below only when this one holds)
+        fails = sorted((j, cls) for (ci, j, cls) in plan if ci == i)
+        reached = [(j, cls) for (j, cls) in fails if r["nops"] is not None and j < r["nops"]]
+        if reached and r["res"] in (0, 2):
+            return where + ": operation %d failed (fault class %d) but the call did not return an error" % reached[0]
         # --- the effects, in order
         for e in r["effs"]:
             code = e[0]
             if code in (90, 91):
                 return where + ": unexpected register access %r" % (e,)
+            if code in BANK_READS and call != BANK + code - E_BANK:
+                return where + ": unexpected device read of bank slot %d" % (code - E_BANK)
             if code == E_ENABLE:
                 if alive:
                     return where + ": EnableStreaming while a loop is alive"
@@ -147,9 +181,19 @@ def judge(calls, plan, rs, bits, faulty_call=None):
                 if not enabled or alive:
                     return where + ": TLParamsLocked=1 before the stream is enabled / while a loop is alive"
                 locked = True
+            elif code == E_COPY1:
+                if not (enabled and locked) or alive:
+                    return where + ": mirror of TLParamsLocked set before the stream is enabled and TLParamsLocked=1 / while a loop is alive"
+                mirror = True
+            elif code == E_COPY0:
+                if alive or acq or locked:
+                    return where + ": mirror of TLParamsLocked cleared before the loop is halted, AcquisitionStop issued and TLParamsLocked=0"
+                mirror = False
             elif code == E_ASTART:
                 if not (enabled and locked) or alive:
                     return where + ": AcquisitionStart before EnableStreaming and TLParamsLocked=1"
+                if hascopy and not mirror:
+                    return where + ": AcquisitionStart before the <pValueCopy> mirror of TLParamsLocked is set"
                 acq = True
             elif code == E_LSTART:
                 if alive:
@@ -174,6 +218,8 @@ def judge(calls, plan, rs, bits, faulty_call=None):
             elif code == E_DISABLE:
                 if alive or acq or locked:
                     return where + ": DisableStreaming before loop halt, AcquisitionStop and TLParamsLocked=0"
+                if hascopy and mirror:
+                    return where + ": DisableStreaming before the <pValueCopy> mirror of TLParamsLocked is cleared"
                 enabled = False
             elif code == E_CTRL_OPEN:
                 copen = True
@@ -204,17 +250,18 @@ def judge(calls, plan, rs, bits, faulty_call=None):
             return where + ": is_loop_running() = %d but a loop is %s" % (f & F_LOOP, "alive" if alive else "not alive")
         for bit, v, name in ((F_COPEN, copen, "control handle opened"), (F_SOPEN, sopen, "stream handle opened"),
                              (F_ENABLED, enabled, "stream enabled"), (F_LOCKED, locked, "TLParamsLocked"),
-                             (F_ACQ, acq, "acquiring")):
+                             (F_ACQ, acq, "acquiring"), (F_MIRROR, mirror, "mirror of TLParamsLocked")):
             if bits & bit and bool(f & bit) != v:
                 return where + ": device state '%s' differs from the effects that happened" % name
         ctxt = bool(f & F_CTXT)
+        if 20 <= call <= LOADC and r["res"] == 0:
+            hascopy = call == LOADC
+            loaded.add(call)
         # --- a successful open leaves BOTH channels opened (also when an earlier open failed half-way: the retry
         #     must open what is still closed); everything after it presupposes that
         if call == OPEN and r["res"] == 0 and (bits & F_COPEN) and (bits & F_SOPEN) and not (copen and sopen):
             return where + ": open returned Ok but the %s channel is not opened" % ("control" if not copen else "stream")
         # --- failure: error returned, later steps not performed
-        fails = sorted((j, cls) for (ci, j, cls) in plan if ci == i)
-        reached = [(j, cls) for (j, cls) in fails if r["nops"] is not None and j < r["nops"]]
         effcodes = [e[0] for e in r["effs"]]
         if reached:
             any_failure = True
@@ -238,18 +285,38 @@ def judge(calls, plan, rs, bits, faulty_call=None):
         # --- every device access of a call is attempted at most once
         if r["atts"] is not None and len(set(r["atts"])) != len(r["atts"]):
             return where + ": an access was attempted twice: device log %r" % (r["atts"],)
+        # --- bank access: a device read returns the device's value; a read served without a device access returns
+        #     what a device read of that slot returned since the last clean close (cached values are dropped by close)
+        if BANK <= call < BANK + NSLOT and r["res"] == 0:
+            k = call - BANK
+            if (E_BANK + k,) in r["effs"]:
+                if r["val"] != mem[k]:
+                    return where + ": device read of bank slot %d returned %d, the device holds %d" % (k, r["val"], mem[k])
+                fresh[k] = r["val"]
+            elif k not in fresh:
+                return where + (": bank slot %d read as %d without a device access, although no value of it was read from the "
+                                "device since the last close: cached register values must be dropped by close "
+                                "(the device holds %d)" % (k, r["val"], mem[k]))
+            elif r["val"] != fresh[k]:
+                return where + (": bank slot %d read as %d without a device access; the value read from the device since "
+                                "the last close is %d" % (k, r["val"], fresh[k]))
         # --- params access returns the device's TLParamsLocked
         if call == PARAMS and r["res"] == 0 and r["val"] != int(locked):
             return where + ": TLParamsLocked read as %d, the device holds %d" % (r["val"], int(locked))
         if i == faulty_call:
             any_failure = True      # end-to-end: a transaction of this call was disturbed
+        # --- a close in which nothing failed drops the cached register values
+        if call == CLOSE and r["res"] == 0 and not reached and i != faulty_call:
+            fresh.clear()
         # --- clean close
         if call == CLOSE and good and not any_failure:
             if r["res"] != 0:
                 return where + ": close failed although no operation failed"
-            dirty = f & bits
+            # the mirror register follows the description loaded at the time of each start / stop: it is demanded
+            # to be 0 only when every description loaded in the session declares it (or none does)
+            dirty = f & bits & ~(F_MIRROR if len(loaded) > 1 else 0)
             if dirty:
-                return where + ": after close (no failure) state bits %d remain (1 loop, 4/8/16 cache, 32/64 handles open, 128 stream enabled, 256 TLParamsLocked, 512 acquiring)" % dirty
+                return where + ": after close (no failure) state bits %d remain (1 loop, 4/8/16/2048/4096.. cache, 32/64 handles open, 128 stream enabled, 256 TLParamsLocked, 512 acquiring, 1024 mirror of TLParamsLocked)" % dirty
     return None
 
 
@@ -449,6 +516,56 @@ def sequences(depth):
     return allseq
 
 
+def reads(slots, lo, hi):
+    """every sequence of lo..hi bank reads over the given slots"""
+    seqs, out = [[]], []
+    for n in range(hi + 1):
+        if n >= lo:
+            out.extend(seqs)
+        seqs = [q + [BANK + k] for q in seqs for k in slots]
+    return out
+
+
+def bank_sessions(quick):
+    """Cached register values across close / reopen.  open, load, the device's bank slots get values; some slots
+    are read (device read, cached from then on); then one of: close + open (same context: the cache must have
+    been dropped), close + open + load (new context), close while streaming, close twice, stop only / nothing
+    (no close: the cached values stay valid), a description with the mirror; the device's slots CHANGE (before or
+    after that step); then up to three reads in every order: after a clean close the first read of each slot must
+    be a device read returning the device's new value, whichever slots were read before it."""
+    slots = (0, 1, 2)
+    v0 = [poke(k, 10 + k) for k in slots]
+    v1 = [poke(k, 20 + 3 * k) for k in slots]
+    mids = ([CLOSE, OPEN], [CLOSE, OPEN, LOAD], [START, CLOSE, OPEN], [START, STOP, CLOSE, OPEN], [CLOSE, CLOSE, OPEN],
+            [STOP], [START, STOP], [], [CLOSE], [CLOSE, LOADC, OPEN])
+    out = []
+    for pre in reads(slots, 0, 2):
+        for mi, mid in enumerate(mids):
+            for post in reads(slots, 1, 3):
+                if quick and mi >= 3 and len(post) == 3 and len(pre) == 2:
+                    continue
+                head = [OPEN, LOADC if mi == 4 else LOAD] + v0 + pre
+                out.append(head + mid + v1 + post)                 # the device changes while closed / afterwards
+                if mi in (0, 2, 5):
+                    out.append(head + v1 + mid + post)             # the device changes before the close
+    # slot 3, repeated close / open cycles, reads while streaming
+    for a in range(NSLOT):
+        for b in range(NSLOT):
+            out.append([OPEN, LOAD, poke(a, 7), BANK + a, BANK + b, START, BANK + a, CLOSE, poke(a, 9), poke(b, 8), OPEN,
+                        BANK + b, BANK + a, CLOSE, poke(a, 11), OPEN, START, BANK + a, BANK + b, STOP, BANK + a, CLOSE])
+    return out
+
+
+def copy_sessions(depth):
+    """every session up to the depth over {open, load_context(description with the <pValueCopy> mirror),
+    start_streaming(3), stop_streaming, close, params access}"""
+    seqs, out = [[]], []
+    for _ in range(depth):
+        seqs = [q + [a] for q in seqs for a in (OPEN, LOADC, START, STOP, CLOSE, PARAMS)]
+        out.extend(seqs)
+    return out
+
+
 def extra_cases(ck):
     rng = Rng(ck.seed)
     quick = ck.tier == "quick"
@@ -461,21 +578,26 @@ def extra_cases(ck):
     for s in ([OPEN, LOAD, 10, CLOSE], [OPEN, LOAD, 10, START, STOP], [10], [LOAD, 10, 10, PARAMS], [LOAD, START, 10],
               [OPEN, LOAD, START, 47, STOP], [OPEN, LOAD, START, 21, STOP, CLOSE], [OPEN, LOAD, START, 29, CLOSE, PARAMS],
               [OPEN, LOAD, START, 38, STOP, LOAD, STOP, CLOSE], [LOAD, 11, STOP, 19, CLOSE, CLOSE],
-              [47, START, CLOSE], [OPEN, START, CLOSE], [START, LOAD, START, CLOSE]):
+              [47, START, CLOSE], [OPEN, START, CLOSE], [START, LOAD, START, CLOSE],
+              # descriptions with and without the mirror loaded in one session (the mirror may stay set), cap 0 / 1
+              [OPEN, LOADC, START, LOAD, STOP, CLOSE], [OPEN, LOADC, START, LOAD, CLOSE, LOADC, OPEN, START, CLOSE],
+              [OPEN, LOAD, START, LOADC, STOP, CLOSE], [OPEN, LOADC, 10, CLOSE], [OPEN, LOADC, 11, PARAMS, STOP, CLOSE],
+              [OPEN, LOADC, START, 47, STOP, CLOSE], [OPEN, LOADC, START, 21, STOP, LOADC, STOP, CLOSE],
+              [BANK], [OPEN, BANK + 1], [OPEN, 47, BANK + 2], [OPEN, 21, poke(3, 5), BANK + 3, BANK + 3, CLOSE, BANK + 3]):
         cases.append(mk(s))
     # random longer sessions over the extended alphabet with random multi-failure plans
-    ext = ALPHABET * 4 + [10, 11, 19, 21, 23, 29, 32, 38, 46, 47]
+    ext = ALPHABET * 4 + [10, 11, 19, 21, 23, 29, 32, 38, 46, 47] + [LOADC] * 3 + [BANK + k for k in range(NSLOT)] * 2
     n = 2500 if quick else 40000
     for _ in range(n):
         ln = rng.range(3, 12)
         if rng.chance(1, 2):
             calls = [rng.choice(ALPHABET) for _ in range(ln)]
         else:
-            calls = [rng.choice(ext) for _ in range(ln)]
+            calls = [rng.choice(ext) if rng.chance(5, 6) else poke(rng.below(NSLOT), rng.below(256)) for _ in range(ln)]
         if rng.chance(2, 3):
-            calls = [OPEN, LOAD] + calls
+            calls = [OPEN, LOADC if rng.chance(1, 4) else LOAD] + calls
         k = rng.choice([0, 1, 1, 2, 2, 3, 5])
-        pts = sorted({(rng.below(len(calls)), rng.below(4)) for _ in range(k)})
+        pts = sorted({(rng.below(len(calls)), rng.below(5)) for _ in range(k)})
         cases.append(mk(calls, [(a, b, rng.below(NCLASS)) for a, b in pts]))
     return cases
 
@@ -522,12 +644,25 @@ RULE = ("exhaustive: every session over {open, load_context, start_streaming(3),
         "Busy, NotOpened, InvalidData, InvalidDevice, BufferTooSmall / the StreamError counterparts) at every failure point of "
         "the sessions up to depth %d, one rotating class per point above%s; plus start_streaming(0) / (1), the 28 description "
         "variants (each of TLParamsLocked / AcquisitionStart / AcquisitionStop good / missing / wrong interface, unparsable "
-        "text) and seeded random sessions of length 3..14 with 0..5 simultaneous failures of random classes; real "
+        "text) and seeded random sessions of length 3..14 with 0..5 simultaneous failures of random classes; "
+        "the description that declares TLParamsLocked with <pValue> + <pValueCopy> (mirror register): every session up to "
+        "depth 4 (thorough with 8 or more workers: 5) over the six calls, failure-free and with every single failure point (all 8 fault classes at the mirror "
+        "write of start / stop / close, one rotating class elsewhere); a selector-addressed register bank (<IntReg> with "
+        "<pIndex Offset=4>, WriteThrough, one cache block per slot) read through the camera's params context: sessions "
+        "open, load, reads of 0..2 slots, {close+open | close+open+load | start+close+open | start+stop+close+open | "
+        "close+close+open | stop | start+stop | nothing | close | close+load(mirror)+open}, the device's bank memory "
+        "changed by the environment before or after that step, then every order of 1..3 reads (+ close / open cycles "
+        "over all 4 slots while streaming), failure-free and (a sample) with every single failure point (all classes at "
+        "the bank reads); real "
         "Camera<FakeCtrl, FakeStrm, DefaultGenApiCtxt> vs Gallina model (vm_compute): per-call result (carrying the fault "
         "class), failed operation, device log (every operation attempted, in order), effect trace, value read, state after "
         "every call (streaming flag, context, register cache, device state); "
-        "independent Python predicate = the acquisition protocol replayed over the implementation's effect trace + error of "
-        "the failed operation with the injected class + every access attempted once + nothing after the failed attempt; "
+        "independent Python predicate = the acquisition protocol replayed over the implementation's effect trace (the "
+        "mirror of TLParamsLocked is written after the <pValue> register, before AcquisitionStart / DisableStreaming) + error of "
+        "the failed operation with the injected class + every access attempted once + nothing after the failed attempt + "
+        "a device read of a bank slot returns the device's current value, a read served without a device access returns "
+        "what a device read of that slot returned since the last close in which nothing failed (cached register values "
+        "are dropped by close); "
         "end-to-end: failure-free sessions open . {load, start, stop, params, open}^<=%d . close (and re-open tails) on the real "
         "Camera<ControlHandle, StreamHandle> over the scripted U3V device of rust/shim (real manifest / XML fetch, SIRM "
         "programming, streaming-loop thread): result classes, protocol-relevant device-memory writes, value read, streaming flag, "
@@ -546,8 +681,9 @@ def main():
                       3 if quick else 5)
     ck.trusted += [
         "rust/h_camera: the recording fakes (FakeCtrl / FakeStrm: a planned failure of a chosen fault class has no effect; every "
-        "invocation of a fake method is logged as an attempt; the loop is a flag, no thread), "
-        "the GenApi descriptions it serves, its classification of CameleonError",
+        "invocation of a fake method is logged as an attempt; the loop is a flag, no thread; the bank memory is changed "
+        "by environment steps of the session), the GenApi descriptions it serves (three SFNC nodes, the mirror variant, "
+        "the selector-addressed bank), its classification of CameleonError",
         "camera.rs + genapi/mod.rs (GenApiDevice) are exercised over the fakes (all failure plans) and over the real ControlHandle / "
         "StreamHandle on the scripted device of rust/shim (rust/h_u3v cam16: failure-free, and with one disturbed control "
         "transaction at a GenApi-driven access); the handles themselves are the subject of C06, C07, C12, C15",
@@ -605,6 +741,7 @@ def main():
     # Sessions are kept as (calls, plan) pairs and turned into cases batch by batch: the thorough tier has
     # several 10^5 cases and must stay small in memory.
     kinds = {}
+    bank_stats, copy_stats = {}, {}
     JOBS = min(vplib.NPROC, 16)
     # sessions up to this depth: every fault class at every failure point (thorough with fewer than 8 workers
     # stays at 4 to keep the tier under 20 minutes: 19.5 min were measured with depth 5 and VERIF_JOBS=4)
@@ -627,13 +764,15 @@ def main():
     def classes_for(calls, ci, oi, allc):
         return list(range(NCLASS)) if allc else [(salt_of(calls) + ci + oi) % NCLASS]
 
-    def families(sessions, family, keep=None):
+    def families(sessions, family, keep=None, focus=False):
         """Each session failure-free and with every single failure point x fault class.  Sessions up to depth
         `all_depth` get EVERY fault class at every failure point, deeper ones one class per point (rotating with
         the session and the point).  Implementation: the failure points are the operations the failure-free run
         of the real code attempts (counted by the fakes).  Model: ONE term per session (cam_family) that
         enumerates the failure points from the model's own operation counts and the same classes; the two
-        enumerations must agree (a different count is a disagreement)."""
+        enumerations must agree (a different count is a disagreement).
+        focus: every fault class at the failure points that are a write of the <pValueCopy> mirror or a bank read,
+        one rotating class at the others (model: focus_classes)."""
         nfail = 0
         for i in range(0, len(sessions), 4000):
             part = sessions[i:i + 4000]
@@ -643,21 +782,23 @@ def main():
             for calls, c0, o in zip(part, base_cases, base_out):
                 cs = [c0]
                 rs = parse(o, len(calls)) if o else None
-                allc = len(calls) <= all_depth
+                allc = len(calls) <= all_depth and not focus
                 for ci, r in enumerate(rs or []):
                     for oi in range(r["nops"]):
                         if keep is not None:
                             if keep():
                                 cs.append(mk(calls, [(ci, oi, rng7.below(NCLASS))]))
                         else:
-                            cs.extend(mk(calls, [(ci, oi, k)]) for k in classes_for(calls, ci, oi, allc))
+                            cs.extend(mk(calls, [(ci, oi, k)])
+                                      for k in classes_for(calls, ci, oi, allc or (focus and r["atts"][oi] in FOCUS_OPS)))
                 per_session.append(cs)
             flat_cases = [c for cs in per_session for c in cs[1:]]
             flat_impl = ck.run_impl(binary, [c.line for c in flat_cases], jobs=JOBS)
             if keep is None:
-                fam = ck.run_model_terms(["Camera"], ["cam_family true %s %s" % (
-                    zlist(s), "all_classes" if len(s) <= all_depth else "(one_class %d)" % salt_of(s)) for s in part],
-                    per_eval=100)
+                fam = ck.run_model_terms(["Camera"], [
+                    "cam_family_by true %s (focus_classes %d)" % (zlist(s), salt_of(s)) if focus else
+                    "cam_family true %s %s" % (zlist(s), "all_classes" if len(s) <= all_depth else "(one_class %d)" % salt_of(s))
+                    for s in part], per_eval=100, jobs=min(JOBS, len(part) // 20 + 1) if focus else None)
             cases, impl, model, k = [], [], [], 0
             for j, cs in enumerate(per_session):
                 outs = [base_out[j]] + flat_impl[k:k + len(cs) - 1]
@@ -680,9 +821,25 @@ def main():
 
     def count_kinds(cases, impl):
         for c, o in zip(cases, impl):
-            rs = parse(o, len(c.meta["calls"])) if o else None
-            for r in rs or []:
+            calls = c.meta["calls"]
+            rs = parse(o, len(calls)) if o else None
+            closed = False          # a clean close happened and the slot was not read since
+            unread = set()
+            for call, r in zip(calls, rs or []):
                 kinds[r["res"]] = kinds.get(r["res"], 0) + 1
+                if call == CLOSE and r["res"] == 0 and not r["failed"]:
+                    unread = set(range(NSLOT))
+                if BANK <= call < BANK + NSLOT and r["res"] == 0:
+                    k = call - BANK
+                    what = ("device read, first read of the slot after a clean close" if k in unread and r["effs"] else
+                            "device read" if r["effs"] else
+                            "served from the cache, first read of the slot after a clean close" if k in unread else
+                            "served from the cache")
+                    bank_stats[what] = bank_stats.get(what, 0) + 1
+                    unread.discard(k)
+                if r["failed"] in (E_COPY1, E_COPY0):
+                    key = "start" if r["failed"] == E_COPY1 else "stop / close"
+                    copy_stats[key] = copy_stats.get(key, 0) + 1
 
     def process(specs, family):
         seen = set()
@@ -704,6 +861,23 @@ def main():
     ck.dist["exhaustive_single_failure_cases"] = families(base, "exhaustive depth<=%d x single failure x fault class" % depth)
     ck.dist["every_fault_class_up_to_depth"] = all_depth
     ck.phase("exhaustive")
+    # the description with the <pValueCopy> mirror: every session up to depth 4, every failure point (every fault class
+    # at the mirror writes)
+    cdepth = 4 if quick or vplib.NPROC < 8 else 5
+    csess = copy_sessions(cdepth)
+    ck.dist["copy_variant_sessions"] = len(csess)
+    ck.dist["copy_variant_single_failure_cases"] = families(
+        csess, "description with <pValueCopy>: exhaustive depth<=%d x single failure (every class at the mirror write)" % cdepth,
+        focus=True)
+    ck.phase("pValueCopy")
+    # cached values across close / reopen, the device's memory changing behind the cache
+    bsess = bank_sessions(quick)
+    ck.dist["bank_sessions"] = len(bsess)
+    process([(s_, ()) for s_ in bsess], "register bank read before / after close / reopen, device memory changed in between")
+    bfail = bsess[::13 if quick else 5]
+    ck.dist["bank_single_failure_cases"] = families(
+        bfail, "register bank across close / reopen x single failure (every class at the bank reads)", focus=True)
+    ck.phase("bank")
     other = []
     if not quick:
         rng = rng7
@@ -741,6 +915,8 @@ def main():
         ck.dist["end_to_end_fault_cases"] = len(fcases)
         ck.phase("end-to-end")
     ck.dist["call_results_by_class"] = kinds
+    ck.dist["bank_reads"] = bank_stats
+    ck.dist["failed_mirror_writes_of_TLParamsLocked"] = copy_stats
     ck.exhaustive = False   # the theorems are for unbounded sessions; the correspondence enumerates depth <= depth only
     ck.dist["exhaustive_bound"] = "sessions over 6 calls up to depth %d x every single failure point" % depth
     ck.finish()
